@@ -8,7 +8,10 @@ package main
 
 import (
 	"bufio"
+	"crypto/sha256"
 	"encoding/base64"
+	"encoding/hex"
+	"path/filepath"
 	"encoding/json"
 	"fmt"
 	"net/http"
@@ -18,6 +21,8 @@ import (
 	"sync"
 
 	"github.com/git-lfs/git-lfs/v3/creds"
+	"github.com/git-lfs/git-lfs/v3/fs"
+	"github.com/git-lfs/git-lfs/v3/tq"
 	"github.com/git-lfs/git-lfs/v3/lfsapi"
 	"github.com/git-lfs/git-lfs/v3/lfshttp"
 )
@@ -27,12 +32,15 @@ type authScript struct {
 	Mode    string                `json:"mode"`
 	Source  string                `json:"source"`
 	Answers map[string][][]string `json:"answers"`
-	Kind    string                `json:"kind"` // batch | storage
+	Kind    string                `json:"kind"`    // api (a batch request) | storage (a download through a batch action)
+	ActHost string                `json:"acthost"` // storage: the identity the action's href names
 }
 
 type authEvent struct {
 	Ev     string `json:"ev"`
 	ID     int    `json:"id,omitempty"`
+	Kind   string `json:"kind,omitempty"`
+	ActHost string `json:"acthost,omitempty"`
 	Host   string `json:"host,omitempty"`
 	Scheme string `json:"scheme,omitempty"`
 	Auth   string `json:"auth,omitempty"`
@@ -62,6 +70,9 @@ func (h *recHelper) Fill(in creds.Creds) (creds.Creds, error) {
 func (h *recHelper) Reject(c creds.Creds) error  { h.emit("reject", h.name(c)); return nil }
 func (h *recHelper) Approve(c creds.Creds) error { h.emit("approve", h.name(c)); return nil }
 
+var storeContent = []byte("the bytes of the object a storage request downloads\n")
+var storeOid = func() string { h := sha256.Sum256(storeContent); return hex.EncodeToString(h[:]) }()
+
 func cmdAuth(args []string) {
 	in, err := os.Open(args[0])
 	if err != nil {
@@ -85,6 +96,15 @@ func cmdAuth(args []string) {
 		h := http.HandlerFunc(func(rw http.ResponseWriter, r *http.Request) {
 			mu.Lock()
 			defer mu.Unlock()
+			if cur != nil && cur.Kind == "storage" && strings.HasSuffix(r.URL.Path, "/objects/batch") {
+				// the batch call that hands out the action is not under test: always answered, never logged
+				spell := []string{"Authorization", "authorization", "AUTHORIZATION"}[cur.ID%3]
+				rw.Header().Set("Content-Type", "application/vnd.git-lfs+json")
+				json.NewEncoder(rw).Encode(map[string]interface{}{"transfer": "basic", "objects": []map[string]interface{}{{"oid": storeOid, "size": len(storeContent),
+					"actions": map[string]interface{}{"download": map[string]interface{}{"href": urls[cur.ActHost] + "/store/" + storeOid,
+						"header": map[string]string{spell: "Basic " + base64.StdEncoding.EncodeToString([]byte("u-act:p"))}}}}}})
+				return
+			}
 			nreq++
 			auth := "none"
 			if a := r.Header.Get("Authorization"); strings.HasPrefix(a, "Basic ") {
@@ -126,6 +146,13 @@ func cmdAuth(args []string) {
 				rw.Header().Set("Location", urls[ans[1]]+r.URL.Path)
 				rw.WriteHeader(307)
 			default:
+				if cur != nil && cur.Kind == "storage" {
+					rw.Header().Set("Content-Type", "application/octet-stream")
+					rw.Header().Set("Content-Length", fmt.Sprint(len(storeContent)))
+					rw.WriteHeader(200)
+					rw.Write(storeContent)
+					return
+				}
 				rw.WriteHeader(200)
 				rw.Write([]byte(`{"objects":[]}`))
 			}
@@ -161,13 +188,20 @@ func cmdAuth(args []string) {
 		cursor = map[string]int{}
 		nreq = 0
 		after = "start"
-		enc.Encode(authEvent{Ev: "reset", ID: s.ID})
+		if s.Kind == "" {
+			s.Kind = "api"
+		}
+		if s.ActHost == "" {
+			s.ActHost = "api"
+		}
+		enc.Encode(authEvent{Ev: "reset", ID: s.ID, Kind: s.Kind, ActHost: s.ActHost})
 		mu.Unlock()
 		api := urls["api"] + "/repo.git/info/lfs"
 		if s.Source == "urluser" {
 			api = strings.Replace(api, "https://", "https://u-api:p@", 1)
 		}
-		cfg := map[string]string{"lfs.url": api, "http.sslverify": "false", "lfs.cachecredentials": "false"}
+		cfg := map[string]string{"lfs.url": api, "http.sslverify": "false", "lfs.cachecredentials": "false",
+			"lfs.transfer.maxretries": "1", "lfs.transfer.maxretrydelay": "1"}
 		if s.Mode == "basic" {
 			cfg["lfs."+urls["api"]+"/repo.git/info/lfs.access"] = "basic"
 		}
@@ -188,6 +222,23 @@ func cmdAuth(args []string) {
 					result = fmt.Sprintf("panic: %v", x)
 				}
 			}()
+			if s.Kind == "storage" {
+				dir, _ := os.MkdirTemp("", "authstore-")
+				defer os.RemoveAll(dir)
+				lfsdir := filepath.Join(dir, "lfs")
+				f := fs.New(c.OSEnv(), dir, dir, lfsdir, 0644)
+				m := tq.NewManifest(f, c, "download", "origin")
+				q := tq.NewTransferQueue(tq.Download, m, "origin")
+				dst, _ := f.ObjectPath(storeOid)
+				q.Add("object.bin", dst, storeOid, int64(len(storeContent)), false, nil)
+				q.Wait()
+				if errs := q.Errors(); len(errs) > 0 {
+					result = "error: " + errs[0].Error()
+				} else {
+					result = "status 200"
+				}
+				return
+			}
 			ep := c.Endpoints.Endpoint("download", "origin")
 			req, err := c.NewRequest("POST", ep, "objects/batch", map[string]interface{}{"operation": "download", "objects": []interface{}{}})
 			if err != nil {
